@@ -137,6 +137,21 @@ fn vstream(profile: &str, seed: u64, start: u64, count: u64, verbose: bool, tall
             let case = spec::generate(&gen_prof, seed ^ 0xABCD, idx);
             exec::run_case(&case).items
         };
+        if real {
+            // A recorded stream is only as contract-abiding as the runner that
+            // produced it: a writer panicking on it is not held against the writer.
+            exec::IN_RUN.store(true, Ordering::SeqCst);
+            let probe = std::panic::catch_unwind(|| {
+                let items = real_items();
+                let _ = recw::normalize(&items);
+            });
+            exec::IN_RUN.store(false, Ordering::SeqCst);
+            if probe.is_err() {
+                tally.count("real_streams_rejected_by_normalize", 1);
+                tally.evaluations += 1;
+                continue;
+            }
+        }
         match profile {
             "c11" => {
                 let s = if real {
